@@ -59,6 +59,19 @@ def fallback(rng, n):
             'schedule': gen.noise_schedule(rng, max_us=200), 'extra': {'timeout_ms': 15000}}
 
 
+def late_waiter(rng, deploy_ms):
+    """the last event of the run is a plain stage change into a waiting stage: `work` succeeds at once, `waiter` deploys
+    slowly and then waits for work's crashed.error, which can no longer come; only a deadlock check made after THAT
+    stage change can end the run"""
+    wf = {'steps': {'work': {'kind': 'plugin', 'pstep': 'work', 'fields': {'input': tmap({'id': lit('work')})}},
+                    'waiter': {'kind': 'plugin', 'pstep': 'work', 'fields': {'input': tmap({'id': lit('waiter')}),
+                                                                               'wait_for': ref('steps.work.crashed.error')}}},
+          'outputs': {'success': tmap({'r': ref('steps.waiter.outputs.success.tok')})}}
+    script = {'work': {'exec': {'out': 'success', 'delay_ms': 0}}, 'waiter': {'deploy': {'delay_ms': deploy_ms}, 'exec': {'out': 'success'}}}
+    return {'wf': wf, 'oc': {'work': okoc(), 'waiter': okoc()}, 'script': script, 'input': {'x': 'x', 'n': 1, 'flag': True}, 'want': ['error'],
+            'schedule': None, 'extra': {'timeout_ms': 15000}}
+
+
 def fallback_burst(rng, n):
     """the same, all steps finishing at the same instant: every completion arms its own detector chain and every chain
     reports the dead end - far more than the error buffer holds, after Execute stopped reading it"""
@@ -99,6 +112,8 @@ def extra(ctx):
                 items.append(fanin(rng, n, 'deployfail', 'slow', with_failure_output=True))
         for n in ([1, 3] if ctx.quick else [1, 2, 3, 6, 24]):
             items.append(fallback(rng, n))
+        for ms in ([150] if ctx.quick else [30, 80, 150, 400]):
+            items.append(late_waiter(rng, ms))
         for n in ([40] if ctx.quick else [21, 30, 40, 80]):
             items.append(fallback_burst(rng, n))
             items.append(evalfail_burst(rng, max(24, n * 3 // 4)))
